@@ -307,7 +307,6 @@ func (w *World) CurEnv() *Env {
 
 func (w *World) idpHook(req *http.Request) error {
 	env, idx, fault := w.begin("idp", "token", "")
-	w.IdP.Mode.Transport = ""
 	switch fault {
 	case "before":
 		env.Calls[idx].Failed = true
@@ -586,6 +585,7 @@ func (w *World) Canon(s string) string {
 	}
 	for _, c := range w.IdP.Codes {
 		addAtom(c.Value)
+		addAtom(c.Req.Challenge)
 	}
 	for t := range w.IdP.Issued {
 		addAtom(t)
